@@ -731,11 +731,13 @@ theorem sdRowsCols_sat {f : File} {s : S} (h : SdHdr) (hs : Good f s) :
   · exact hs
 
 theorem sdCodebook_sat {f : File} {s : S} (n : Nat) (hs : Good f s) :
-    (sdCodebook s n).Sat fun s' => Good f s' := by
+    (sdCodebook s n).Sat fun s' => Good f s' ∧ s'.ptr = s.ptr + n := by
   unfold sdCodebook
   split
-  · exact Sat.mono (skip_sat _ _ hs) fun s' h' => h'.1
-  · exact hs
+  · exact Sat.mono (skip_sat _ _ hs) fun s' h' => ⟨h'.1, h'.2.1⟩
+  · rename_i h0
+    have : n = 0 := Classical.byContradiction fun hx => h0 hx
+    exact ⟨hs, by omega⟩
 
 /-- every row pointer set up by `read_sendump` (and the `step` bytes it stands for) is inside the file -/
 theorem sdRows_sat {f : File} (step : Nat) : ∀ n (s : S), Good f s →
@@ -747,10 +749,15 @@ theorem sdRows_sat {f : File} (step : Nat) : ∀ n (s : S), Good f s →
     intro s1 ⟨h1, hp, _⟩
     exact Sat.mono (sdRows_sat step n s1 h1) fun s' ⟨hg, hq⟩ => ⟨hg, by rw [hq, hp, Nat.succ_mul]; omega⟩
 
+/-- `read_sendump` completes only with: one row per density, at least one column per senone, `n_bits` 8 or 4,
+a cluster codebook of 0 or 16 bytes lying in the file right before the first row, and the reader position after
+the last row exactly `n_feat * n_density` rows of `step = sdStep bits cols` bytes (`cols`, or `(cols + 1) / 2`
+when two weights are packed per byte) behind the first row — all inside the file -/
 theorem sendumpPlan_sat (f : File) (gFeat gDensity mdefSen : Nat) :
     (sendumpPlan f gFeat gDensity mdefSen).Sat fun o =>
       o.rows = gDensity ∧ mdefSen ≤ o.cols ∧ o.endPtr ≤ f.size ∧
-      ∃ step, o.endPtr = o.dataOff + gFeat * gDensity * step := by
+      (o.bits = 8 ∨ o.bits = 4) ∧ (o.clust = 0 ∨ o.clust = 16) ∧ o.clust ≤ o.dataOff ∧
+      o.endPtr = o.dataOff + gFeat * gDensity * sdStep o.bits o.cols := by
   unfold sendumpPlan
   refine Sat.bind (get32_sat _ (good_init f)) ?_
   rintro ⟨s1, t⟩ ⟨h1, _⟩
@@ -781,17 +788,30 @@ theorem sendumpPlan_sat (f : File) (gFeat gDensity mdefSen : Nat) :
   · trivial
   split
   · trivial
+  rename_i hbits
   split
   · trivial
   rename_i hrc
   refine Sat.bind (sdCodebook_sat _ h7) ?_
-  intro s8 h8
+  intro s8 ⟨h8, hp8⟩
   refine Sat.bind (sdRows_sat _ _ s8 h8) ?_
   intro s9 ⟨h9, hp9⟩
-  refine ⟨rfl, ?_, h9.2, _, hp9⟩
-  show mdefSen ≤ c.toNat
-  have : h.nSen = (mdefSen : Int) := Classical.byContradiction fun hx => hsen hx
-  omega
+  have hb : h.nBits = 8 ∨ h.nBits = 4 := Classical.byContradiction fun hx => hbits hx
+  refine ⟨rfl, ?_, h9.2, ?_, ?_, ?_, ?_⟩
+  · show mdefSen ≤ c.toNat
+    have : h.nSen = (mdefSen : Int) := Classical.byContradiction fun hx => hsen hx
+    omega
+  · show h.nBits.toNat = 8 ∨ h.nBits.toNat = 4
+    omega
+  · show (if h.nClust = 0 then 0 else 16) = 0 ∨ (if h.nClust = 0 then 0 else 16) = 16
+    split <;> simp
+  · show (if h.nClust = 0 then 0 else 16) ≤ s8.ptr
+    omega
+  · show s9.ptr = s8.ptr + gFeat * gDensity * sdStep h.nBits.toNat c.toNat
+    rw [hp9]
+    congr 1
+    unfold sdStep
+    rcases hb with hb | hb <;> simp [hb]
 
 theorem mixwPlan_sat (f : File) (gFeat gDensity : Nat) :
     (mixwPlan f gFeat gDensity).Sat fun o => 0 < o.nSen ∧ o.nFeat = gFeat ∧ o.nComp = gDensity ∧
